@@ -169,7 +169,14 @@ pub fn parse_function_body(
     let func_params = {
         let mut vec = Vec::new();
         for ast_param in &fd.params {
-            let parsed_param = parse_paramtype(ast_param, context).unwrap();
+            let mut parsed_param = parse_paramtype(ast_param, context).unwrap();
+
+            // A default argument may have been given on the declaration only
+            if parsed_param.default_expr.is_none()
+                && let Some(expr) = context.get_declared_default_argument(id, vec.len())
+            {
+                parsed_param.default_expr = Some(parse_expr(&expr, context)?.0);
+            }
 
             // Signature type should match reparsed type
             #[cfg(debug_assertions)]
@@ -259,6 +266,11 @@ fn parse_function(
             id
         }
     };
+
+    if !is_definition {
+        let default_arguments = fd.params.iter().map(|p| p.default_expr.clone()).collect();
+        context.set_declared_default_arguments(id, default_arguments);
+    }
 
     if is_definition {
         if signature.template_params.is_empty() {
